@@ -199,7 +199,7 @@ def check_request(schema, eff, spec_world, req, entry, ctx=None):
 
 @st.composite
 def cases(draw):
-    base = draw(C8.cases())
+    base = draw(C8.cases(null_hazards=("argument", "directive")))
     spec, mode = base["spec"], base["mode"]
     eff = H.sdl_view(GS.Spec(spec)) if mode == "sdl" else GS.Spec(spec)
     req0 = base["request"]
